@@ -837,12 +837,17 @@ where
 }
 
 /// Parse the referrals from the supplied BER-encoded sequence.
+///
+/// The function will panic if the sequence is malformed.
 pub fn parse_refs(t: StructureTag) -> Vec<String> {
-    t.expect_constructed()
-        .expect("referrals")
-        .into_iter()
-        .map(|t| t.expect_primitive().expect("octet string"))
-        .map(String::from_utf8)
-        .map(|s| s.expect("uri"))
-        .collect()
+    try_parse_refs(t).expect("referrals")
+}
+
+/// Parse the referrals, returning `None` if the sequence is malformed.
+pub(crate) fn try_parse_refs(t: StructureTag) -> Option<Vec<String>> {
+    let mut refs = Vec::new();
+    for uri in t.expect_constructed()? {
+        refs.push(String::from_utf8(uri.expect_primitive()?).ok()?);
+    }
+    Some(refs)
 }
